@@ -1,6 +1,7 @@
 import RzmqModel.Props.C05
 #print axioms Rzmq.C05.compat_symmetric
 #print axioms Rzmq.C05.verdict_is_the_zeromq_pairing
+#print axioms Rzmq.C05.wire_layout_is_zmtp
 #print axioms Rzmq.C05.v2_v3_same_table
 #print axioms Rzmq.C05.inproc_subset_zmtp
 #print axioms Rzmq.C05.inproc_differs_counterexample
